@@ -85,6 +85,8 @@ class Rpc {
     void onRespondTimeout(int id);
 
   private:
+    int allocRequestId();
+
     Proto *proto_ = nullptr;
 
     std::unordered_map<std::string, ServiceCallback> method_services_;
